@@ -65,7 +65,7 @@ Proof. split; [exact dec_relaxed_refuted|exact acq_missing_refuted]. Qed.
     streams filtered by the machine and compares every step.  Whatever the generator produces, what the machine accepts
     is one of the executions the theorem above is about: the final state of every case of the stream is safe. *)
 Theorem C02_every_schedule_of_the_stream_is_covered :
-  forall fuel ls, bad (fst (run_labels Extracted.count_progs fuel xinit ls)) = false.
+  forall fuel cow ls, bad (fst (fst (run_labels Extracted.count_progs fuel cow xinit ls))) = false.
 Proof. exact sched_stream_is_covered. Qed.
 
 
